@@ -295,7 +295,7 @@ func (c *Check) Accumulator(fn *ssa.Function, lp *Loop, varName string, step fun
 	desc := fmt.Sprintf("every completed iteration of loop %s performs %s (no iteration skips the accumulation)", lp.Name, what)
 	var phi *ssa.Phi
 	for _, ins := range lp.Header.Instrs {
-		if p, ok := ins.(*ssa.Phi); ok && p.Comment == varName {
+		if p, ok := ins.(*ssa.Phi); ok && phiIs(p, varName) {
 			phi = p
 		}
 	}
